@@ -28,6 +28,8 @@ ops   c01 [cfg, R, W, classes_only]      lines of list(Segment.split_lines(conso
                                          Panel.fit that was built (and measured once) BEFORE the edits.  In the functional
                                          model measurement is a function of the current value; this op is the tie for any
                                          memoisation inside the objects.
+      c09_get [cfg, R, max_width?]       Measurement.get(console, r) with max_width OMITTED ([]: None = console width) or given
+                                         ([0], [w]); checked with meas_bounds_b against the resolved available width
       fits_raw [cfg, R, W]               as c01, checked with plain fits_b W lines (no domain guard); used only by the
                                          known-finding witness corpus/C01_known/*.json -- no generator emits it
 cfg = [console width, fix_d20]; results carry their outcome class ([0, v] ok / [1, e] documented / [2, k] escape).
@@ -39,7 +41,7 @@ from common import s2t, t2s, DOC_ERRORS, CRASH_ERRORS
 import common
 
 OPS = {"c01": {"noshrink": False}, "c09": {}, "text_measure": {}, "text_at_max": {},
-       "c09_hist": {}, "fits_raw": {}}     # fits_raw: c01 with the UNGUARDED checker spec.fits; known-finding witnesses only, never generated
+       "c09_hist": {}, "c09_get": {}, "fits_raw": {}}     # fits_raw: c01 with the UNGUARDED checker spec.fits; known-finding witnesses only, never generated
 
 # the model variant compared with the implementation: 1 = Text.__rich_measure__ splits lines at "\n" only
 # (fixes/C09_text_measure_lines.diff applied), 0 = rich 9.10.0 as found (str.splitlines)
@@ -179,6 +181,8 @@ def gen_r(rng, depth, budget, cell=False):
         leafp = max(leafp, 0.7)
     if budget[0] <= 0 or k < leafp:
         j = rng.random()
+        if j < 0.04:
+            return [6, [], 1]
         if j < 0.72:
             return gtext(rng)
         if j < 0.82:
@@ -206,13 +210,18 @@ def gen_r(rng, depth, budget, cell=False):
     if k < 0.45:
         return [5, gen_r(rng, depth + 1, budget)]
     if k < 0.55:
+        j = rng.random()
+        if j < 0.12:            # the empty group, and groups of empty groups (measure_renderables' empty guard)
+            return [6, [], 0 if rng.random() < 0.2 else 1]
+        if j < 0.18:
+            return [6, [[6, [], 1] for _ in range(rng.randint(1, 2))], 0 if rng.random() < 0.2 else 1]
         n = rng.randint(1, 3)
         kids = [gen_r(rng, depth + 1, budget) for _ in range(n)]
         return [6, kids, 0 if rng.random() < 0.2 else 1]
     if k < 0.75:
         return gtable(rng, depth, budget)
     if k < 0.85:
-        n = rng.choice([1, 2, 3, 4, 6])
+        n = rng.choice([0, 1, 2, 3, 4, 6])     # 0: Columns with no items
         items = [gen_r(rng, depth + 1, budget, cell=True) for _ in range(n)]
         p = rpad4(rng) if rng.random() < 0.5 else [0, 1, 0, 1]
         return [11, items, [p, rng.randint(0, 1), rng.randint(0, 1), rng.randint(0, 1), rng.randint(0, 1),
@@ -263,6 +272,21 @@ def generate(rng, tier):
     return cases
 
 
+def kind_samples():
+    """one small tree of every renderable kind (wider than a narrow console), plus the empty containers"""
+    tx = [0, s2t("hello wide world"), [], [], []]
+    topts = [1, 1, 1, 0, 0, 0, [0, 1, 0, 1], 0, 1, 0, [], []]
+    col = [s2t("head"), [], 1, 2, 0, [], [], [], []]
+    return [tx, [1, tx, 0, 2, 0, 2, 0], [2, tx, [[3, 1, 0, 0], s2t("title"), 1, 0, [], [0, 1, 0, 1]]],
+            [3, tx, 1, 1, []], [4, tx, [30]], [5, tx], [6, [tx, tx], 1], [6, [], 1], [6, [[6, [], 1]], 1],
+            [7, s2t("t"), s2t("-"), 1], [8, 10, 2, 7, []], [8, 10, 2, 7, [30]], [9, 100, 40, [], 0, 0], [9, 100, 40, [30], 0, 0],
+            [10, [topts, [3], [], [], [col, col], [0]], [[tx, tx]]], [10, [topts, [3], [], [], [col], []], []],
+            [11, [tx, tx, tx], [[0, 1, 0, 1], 0, 0, 0, 0, [], []]], [11, [], [[0, 1, 0, 1], 0, 0, 0, 0, [], []]],
+            [12, tx, [[12, tx, [], 1]], 1], [12, [6, [], 1], [], 1], [13, tx], [14, tx],
+            [2, [6, [], 1], [[3, 1, 0, 0], [], 1, 0, [], [0, 1, 0, 1]]], [3, [6, [], 1], 1, 1, []],
+            [1, [6, [], 1], 0, 1, 0, 1, 0], [11, [[6, [], 1], tx], [[0, 1, 0, 1], 0, 0, 0, 0, [1], []]]]
+
+
 def redit(rng):
     """an in-place edit of a Text: [kind, payload] (see DrvLayout.apply_edit)"""
     k = rng.choice([0, 0, 1, 7, 2, 3, 4, 5, 6, 6, 8, 9])
@@ -291,6 +315,17 @@ def generate_measure(rng, tier):
         W = rwidth(rng, sm) if rng.random() < 0.6 else rng.randint(0, 200)
         avail = W if rng.random() < 0.7 else rng.randint(0, 200)
         cases.append(("c09", [[max(W, avail, 1), fx], t, avail, 0]))   # console width >= every width handed down
+    # Measurement.get with max_width omitted (= console width) and with max_width = 0: every tree, and one small
+    # tree of every renderable kind at a narrow console
+    for t, sm in zip(trees, smins):
+        cw = rng.choice([rwidth(rng, sm), rng.randint(1, 12), rng.randint(1, 200)])
+        cases.append(("c09_get", [[max(cw, 1), fx], t, []]))
+        if rng.random() < 0.3:
+            cases.append(("c09_get", [[max(cw, 1), fx], t, [rng.choice([0, 0, 1, max(cw, 1) + rng.randint(1, 40)])]]))
+    for t in kind_samples():
+        for cw in (1, 3, 7, 40):
+            cases.append(("c09_get", [[cw, fx], t, []]))
+            cases.append(("c09_get", [[cw, fx], t, [0]]))
     for _ in range(500 if tier == "quick" else 6000):
         s0 = rtext(rng, rng.choice([4, 12, 30]))
         edits = [redit(rng) for _ in range(rng.randint(1, 4))]
@@ -508,6 +543,13 @@ def impl(op, arg):
         mn, mx = m[1]
         return [[0, []] if co else m,
                 [outcome(lambda: lines_at(con, build(t), mx), co), outcome(lambda: lines_at(con, build(t), mn), co)]]
+    if op == "c09_get":
+        from rich.measure import Measurement
+        cfg, t, mw = arg
+        con = console(cfg[0])
+        if mw:
+            return outcome(lambda: list(Measurement.get(con, build(t), mw[0])))
+        return outcome(lambda: list(Measurement.get(con, build(t))))
     if op == "c09_hist":
         from rich.measure import Measurement
         from rich.text import Text
@@ -584,6 +626,11 @@ def spec_cases(op, arg, out):
                 res.append(("spec.meas_bounds", [avail, m[1]]))
             if rest and rest[0][0] == 0 and rest[1][0] == 0:
                 res.append(("spec.meas_sound_dom", [t, m[1], rest[0][1], rest[1][1]]))
+    if op == "c09_get":
+        if out[0] == 0:
+            avail = arg[2][0] if arg[2] else arg[0][0]
+            if avail >= 0:
+                res.append(("spec.meas_bounds", [avail, out[1]]))
     if op == "c09_hist":
         steps, otx, opn = out
         fx = arg[0][1]
@@ -637,6 +684,8 @@ def describe(op, arg):
             return "render %s at W=%d" % (show(arg[1]), arg[2])
         if op == "c09":
             return "measure %s at avail=%d (console %d)" % (show(arg[1]), arg[2], arg[0][0])
+        if op == "c09_get":
+            return "Measurement.get(console(%d), %s%s)" % (arg[0][0], show(arg[1]), ", %d" % arg[2][0] if arg[2] else "")
         return "%s %r" % (op, t2s(arg[0]))
     except Exception:
         return None
